@@ -39,13 +39,45 @@ def plan(tier, seed):
     return common.session_plan(PROP, tier, seed, quick=6000, thorough=60000)
 
 
+def _recompute(gen, tracks):
+    f = tracks.features
+    keys = gen.rng.choice([[f.tracklet_key, f.lineage_key], [f.tracklet_key],
+                           [f.lineage_key]])
+    return {"op": "features", "enable": keys, "recompute": True}
+
+
+def _add_on_next_track(gen, tracks):
+    for _ in range(10):
+        op = gen.gen_add_node(tracks)
+        if op is not None and "omit" not in op:
+            op["track_id"] = int(tracks.get_next_track_id())
+            op["force"] = False
+            return op
+    return None
+
+
+def _edit(gen, tracks):
+    for _ in range(10):
+        op = gen.rng.choice([gen.gen_add_edge, gen.gen_delete_edge, gen.gen_delete_node])(tracks)
+        if op is not None:
+            return op
+    return None
+
+
+# after the random part: the id features are recomputed in bulk (ids renumbered 1..n, lookup
+# tables rebuilt), then ids are issued and used again. The older history refers to the old
+# numbering and is not walked any more after this point.
+TAIL = [_recompute, _add_on_next_track, _edit, _edit]
+
+
 def run_shard(spec):
     return common.run_sessions(spec, PROP, make_monitors, cfg_fn, nsteps=(15, 40),
-                               weights=WEIGHTS, refusal_rate=0.4, history_share=0.25)
+                               weights=WEIGHTS, refusal_rate=0.4, history_share=0.25,
+                               tail=TAIL, tail_share=0.4)
 
 
 def floors(tier):
-    return {"sessions": 250, "query-comparisons": 10000, "fresh-node-id-calls": 200,
+    return {"id-recomputations": 100, "sessions": 250, "query-comparisons": 10000, "fresh-node-id-calls": 200,
             "after-undo": 200, "after-redo": 100}
 
 
